@@ -145,7 +145,9 @@ def check(run):
                     lo = min(hop.values())
                     s = pre.surplus if pre.surplus is not None and cfg.cmp(pre.surplus, 0) > 0 else 0
                     tied = sorted(c for c, v in hop.items() if cfg.cmp(lo + s, v) >= 0)
-                    amb = False
+                    # membership of the tied set hinges on differences within a few tolerances (a slightly negative surplus inside
+                    # the tolerance is kept by the code, dropped here): not evaluated, as for every other near-tolerance decision
+                    amb = cfg.geps > 1 and any(0 < abs(v - (lo + s)) < 3 * cfg.geps for v in hop.values())
                 else:
                     tied, amb = extreme_set(cfg, hop, True)
                 if c0 not in tied and not amb:
